@@ -183,3 +183,78 @@ def tuple_roles(ctx, rule, fi: FuncInfo, kernel: str, role_to_param: Dict[int, L
         return
     bad = sorted({w for ok, w in verdicts if not ok})
     ctx.check(not bad, rule, key, "each kernel result reaches the constructor parameter of the same role", " ; ".join(bad), fi.where)
+
+
+def mask_polarity(e):
+    """(polarity KEEP/NA/?, axis 'elem'/'rows'/'cols'/?) of a mask expression."""
+    if isinstance(e, ast.UnaryOp) and isinstance(e.op, ast.Invert):
+        p, a = mask_polarity(e.operand)
+        return ({"KEEP": "NA", "NA": "KEEP"}.get(p, "?"), a)
+    if isinstance(e, ast.Attribute) and e.attr == "values":
+        return mask_polarity(e.value)
+    if isinstance(e, ast.Call) and isinstance(e.func, ast.Attribute):
+        name = e.func.attr
+        if name in ("notna", "notnull", "is_not_null"):
+            return ("KEEP", "elem")
+        if name in ("isna", "isnull", "is_null", "is_nan"):
+            return ("NA", "elem")
+        if name in ("any", "all"):
+            p, a = mask_polarity(e.func.value)
+            ax = kwarg(e, "axis") or (e.args[0] if e.args else None)
+            axv = _cv(ax) if ax is not None else None
+            # any over NA flags -> row is NA ; all over KEEP flags -> row is KEEP ; mixing changes the meaning
+            if (name == "any" and p != "NA") or (name == "all" and p != "KEEP"):
+                p = "?"
+            return (p, "rows" if axv == 1 else "cols")
+        if name in ("to_numpy", "astype"):
+            return mask_polarity(e.func.value)
+        if call_is(e, "isnan"):
+            return ("NA", "elem")
+    if isinstance(e, ast.Call) and call_is(e, "isnan"):
+        return ("NA", "elem")
+    return ("?", "?")
+
+
+
+
+def _cv(node):
+    from sa.util import const_value
+    return const_value(node)
+
+
+def axis_resolved(ctx, rule, fi, param="axis"):
+    """Every use of the axis parameter as an index / comparison operand / argument is dominated by
+    `axis = self._get_axis(axis)` (names must be resolved to positions; a bare `self._get_axis(axis)` only validates)."""
+    ctx.saw(fi)
+    bad = []
+    uses = 0
+    for path in function_paths(fi.node):
+        resolved = False
+        for step in path:
+            nodes = [step[1]] if step[0] in ("stmt", "cond") else ([step[1].iter] if step[0] == "for" and isinstance(step[1], ast.For) else [])
+            for nd in nodes:
+                if isinstance(nd, ast.Assign) and len(nd.targets) == 1 and isinstance(nd.value, ast.Call) and U(nd.value.func) == "self._get_axis" \
+                        and nd.value.args and U(nd.value.args[0]) == param:
+                    if U(nd.targets[0]) == param:
+                        resolved = True
+                    continue
+                for n in ast.walk(nd):
+                    use = None
+                    if isinstance(n, ast.Subscript) and any(isinstance(x, ast.Name) and x.id == param for x in ast.walk(n.slice)):
+                        use = U(n)
+                    elif isinstance(n, ast.Compare) and any(isinstance(x, ast.Name) and x.id == param for x in [n.left] + n.comparators) \
+                            and not any(isinstance(c, ast.Constant) and c.value is None for c in n.comparators):
+                        use = U(n)
+                    elif isinstance(n, ast.Call) and U(n.func) != "self._get_axis" and any(isinstance(a, ast.Name) and a.id == param for a in n.args) \
+                            and U(n.func).startswith("self.") and U(n.func) not in ("self.merge_bins",):
+                        # passing the raw value on to a method that resolves it itself is fine
+                        continue
+                    if use is not None:
+                        uses += 1
+                        if not resolved:
+                            bad.append(f"`{use[:60]}` uses the raw `{param}` argument (an axis *name* would be compared / indexed as given)")
+    key = f"{fi.qualname}:axis-resolved"
+    if uses == 0 and not bad:
+        ctx.ok(rule, key, f"`{param}` is only passed on", fi.where)
+    else:
+        ctx.check(not bad, rule, key, f"{uses} use(s) of `{param}`, each after `{param} = self._get_axis({param})`", " ; ".join(sorted(set(bad))[:2]), fi.where)
